@@ -62,7 +62,7 @@ def omg (x : P) : Nat :=
 /-- `L` lists (without repetition) every thread that has called Offer -/
 def Covers (L : List Nat) (s : St) : Prop := L.Nodup ∧ ∀ p, (s.ps p).ph ≠ .idle → p ∈ L
 
-def Phi (L : List Nat) (s : St) : Nat := sumF phi s.ps L + s.cwait.length
+def Phi (L : List Nat) (s : St) : Nat := sumF phi s.ps L + s.cwoken.length
 def Omega (L : List Nat) (s : St) : Nat := sumF omg s.ps L + 2 * s.items.length + s.inflight.length
 
 theorem phi_le (x : P) : phi x ≤ 6 := by
@@ -105,6 +105,9 @@ end OtelVerif.C02
 
 namespace OtelVerif.C02
 
+theorem condSignal_cwoken (s : St) : (condSignal s).cwoken = s.cwoken := by
+  unfold condSignal; cases s.waiters <;> rfl
+
 theorem one_thread {L : List Nat} {s s' : St} {p : Nat} {x : P} {a b c d : Nat} (hc : Covers L s) (hp : (s.ps p).ph ≠ .idle)
     (h1 : s'.ps = upd s.ps p x) (ha : phi (s.ps p) = a) (hb : phi x = b) (hc' : omg (s.ps p) = c) (hd : omg x = d) :
     Covers L s' ∧ sumF phi s'.ps L + a = sumF phi s.ps L + b ∧ sumF omg s'.ps L + c = sumF omg s.ps L + d := by
@@ -127,7 +130,9 @@ theorem tryAdd_measure {k : Cfg} {L : List Nat} {s : St} {p : Nat} {el : Int} (h
     · obtain ⟨a, b, c⟩ := one_thread (s' := refuse s p .full) (x := ⟨.done .full, (s.ps p).el, false, (s.ps p).canc⟩) hc hni rfl h5
         (b := 0) (by simp [phi]) h3 (d := 0) (by simp [omg])
       exact ⟨a, by simp only [Phi, refuse] at b ⊢; omega, by simp only [Omega, refuse] at c ⊢; omega⟩
-  · cases hw : k.wfr with
+  · have ht : (s.cwoken ++ s.cwait.take 1).length ≤ s.cwoken.length + 1 := by
+      simp only [List.length_append, List.length_take]; omega
+    cases hw : k.wfr with
     | true =>
       obtain ⟨a, b, c⟩ := one_thread (s' := accept k s p el) (x := ⟨.waitRes, el, false, (s.ps p).canc⟩) hc hni
         (by simp [accept, hw]) h5 (b := 1) (by simp [phi]) h3 (d := 0) (by simp [omg])
@@ -198,7 +203,7 @@ theorem internal_step_measure {k : Cfg} {L : List Nat} {s s' : St} {l : Label} (
           (x := ⟨.done .ctxErr, ((condSignal s).ps p).el, false, ((condSignal s).ps p).canc⟩) hc1 hni1 rfl
           (a := 3) (by simp [phi, hph]) (b := 0) (by simp [phi]) (c := 3) (by simp [omg, hph]) (d := 0) (by simp [omg])
         obtain ⟨f1, f2, _, _, f5, _⟩ := condSignal_fields s
-        exact ⟨a, by simp only [Phi, refuse] at b ⊢; rw [f5]; omega, by simp only [Omega, refuse] at c ⊢; rw [f1, f2]; omega⟩
+        exact ⟨a, by simp only [Phi, refuse] at b ⊢; rw [condSignal_cwoken]; omega, by simp only [Omega, refuse] at c ⊢; rw [f1, f2]; omega⟩
     · cases hf
   | getRes p =>
     simp only [fire] at hf
@@ -228,7 +233,7 @@ theorem internal_step_measure {k : Cfg} {L : List Nat} {s s' : St} {l : Label} (
     simp only [fire] at hf
     split at hf
     · rename_i hcw
-      have hlen : (s.cwait.erase c).length + 1 = s.cwait.length := by
+      have hlen : (s.cwoken.erase c).length + 1 = s.cwoken.length := by
         rw [List.length_erase_of_mem hcw]
         have := List.length_pos_of_mem hcw
         omega
@@ -244,6 +249,9 @@ theorem internal_step_measure {k : Cfg} {L : List Nat} {s s' : St} {l : Label} (
           · simp only [Phi]; omega
           · simp only [Omega]; omega
         · cases hf
+          refine ⟨hc, ?_, ?_⟩
+          · simp only [Phi]; omega
+          · simp only [Omega]; omega
     · cases hf
 
 end OtelVerif.C02
@@ -344,7 +352,7 @@ theorem idle_step {k : Cfg} {s s' : St} {l : Label} (hf : fire k s l = some s') 
         exact hq
       · split at hf
         · cases hf; exact hq
-        · cases hf
+        · cases hf; exact hq
     · cases hf
   | complete id e =>
     simp only [fire] at hf
@@ -600,7 +608,7 @@ theorem frame_step {k : Cfg} {s s' : St} {l : Label} (hf : fire k s l = some s')
         exact ⟨fun q hq => hq, fun r _ => ⟨rfl, rfl⟩⟩
       · split at hf
         · cases hf; exact ⟨fun q hq => hq, fun r _ => ⟨rfl, rfl⟩⟩
-        · cases hf
+        · cases hf; exact ⟨fun q hq => hq, fun r _ => ⟨rfl, rfl⟩⟩
     · cases hf
   | complete id e =>
     simp only [fire] at hf
